@@ -172,6 +172,67 @@ theorem stream_lenTable_inj_paths (fs fs' : FS) (l l' : List Path)
       have hab : a = b := hnm a (by simp) b (by simp) hm.1.1
       exact ⟨⟨hab, hm.1.2⟩, ih l' (fun p hp q hq => hnm p (by simp [hp]) q (by simp [hq])) hm.2⟩
 
+/-! ### the fingerprint as a function of the list of (name, content) -/
+
+/-- names and contents back to back -/
+def flatL : List (Bytes × Bytes) → Bytes
+  | [] => []
+  | r :: l => r.1 ++ r.2 ++ flatL l
+
+/-- the length table of a list of (name, content) -/
+def lensL : List (Bytes × Bytes) → Bytes
+  | [] => []
+  | r :: l => be64 r.1.length ++ be64 r.2.length ++ lensL l
+
+/-- the checksum of a list of (name, content) -/
+def fpOfList (H : Hashes) (l : List (Bytes × Bytes)) : Bytes := H.outer (flatL l) ++ H.lens (lensL l)
+
+theorem stream_eq_flatL (fs : FS) (l : List Path) :
+    stream nm fs l = flatL (l.map (fun p => (nm p, contentOf fs p))) := by
+  induction l with
+  | nil => rfl
+  | cons a l ih => simp only [stream, List.map_cons, flatL, ih]
+
+theorem lenTable_eq_lensL (fs : FS) (l : List Path) :
+    lenTable nm fs l = lensL (l.map (fun p => (nm p, contentOf fs p))) := by
+  induction l with
+  | nil => rfl
+  | cons a l ih => simp only [lenTable, List.map_cons, lensL, ih]
+
+/-- **the fingerprint is a function of the list of (name, content) of the matched sources** -/
+theorem fpNow_eq_fpOfList (H : Hashes) (pr : Proj) (t : Task) (fs : FS) :
+    fpNow H pr t fs = fpOfList H (srcList pr t fs) := by
+  unfold fpNow fpOfList srcList
+  rw [stream_eq_flatL, lenTable_eq_lensL]
+
+theorem lensL_length (l : List (Bytes × Bytes)) : (lensL l).length = 16 * l.length := by
+  induction l with
+  | nil => rfl
+  | cons a l ih => simp only [lensL, List.length_append, be64_length, ih, List.length_cons]; omega
+
+/-- … and the bytes fed to the two hashes determine that list (`stream_lenTable_inj` at list level) -/
+theorem flatL_lensL_inj : ∀ (l l' : List (Bytes × Bytes)), flatL l = flatL l' → lensL l = lensL l' → l = l'
+  | [], [], _, _ => rfl
+  | [], b :: l', _, ht => by
+    have := congrArg List.length ht
+    rw [lensL_length, lensL_length] at this
+    simp at this
+  | a :: l, [], _, ht => by
+    have := congrArg List.length ht
+    rw [lensL_length, lensL_length] at this
+    simp at this
+  | a :: l, b :: l', hs, ht => by
+    simp only [lensL] at ht
+    have h1 := List.append_inj ht (by simp only [List.length_append, be64_length])
+    have h2 := List.append_inj h1.1 (by simp only [be64_length])
+    have hn : a.1.length = b.1.length := be64_inj h2.1
+    have hc : a.2.length = b.2.length := be64_inj h2.2
+    simp only [flatL] at hs
+    have h3 := List.append_inj hs (by simp only [List.length_append, hn, hc])
+    have h4 := List.append_inj h3.1 hn
+    have ih := flatL_lensL_inj l l' h3.2 h1.2
+    rw [ih, Prod.ext h4.1 h4.2]
+
 /-! ### adding / removing a file -/
 
 theorem ahas_aset (fs : FS) (q p : Path) (f : File) : ahas (aset fs q f) p = (decide (q = p) || ahas fs p) := by
